@@ -70,6 +70,8 @@ theorem nearBox_of_close (nb i : ℕ) (z lat lon : ℚ) (q : Pos) (lat' lon' e1 
 
 theorem NL_le_59 (x : ℚ) : NL x ≤ 59 := by rw [← nl_eq_NL]; exact (nl_range x).2
 
+theorem NL_ge_1 (x : ℚ) : 1 ≤ NL x := by rw [← nl_eq_NL]; exact (nl_range x).1
+
 /-- `Dlon ≥ 360/59`, the narrowest longitude zone -/
 theorem dlon_ge (i : ℕ) (rl : ℚ) : 360 / 59 ≤ dlon i rl := by
   rw [dlon_eq]
